@@ -37,6 +37,7 @@ extern "C" {
 #include "upipe/config.h"
 #include "upipe/ubase.h"
 #include "upipe/upump.h"
+#include "upipe/uverif.h"
 
 #include <assert.h>
 #include <errno.h>
@@ -115,6 +116,12 @@ static inline struct upump *ueventfd_upump_alloc(struct ueventfd *fd,
  */
 static inline bool ueventfd_read(struct ueventfd *fd)
 {
+#ifdef UPIPE_VERIF
+    UVERIF_YIELD(UVERIF_EVENTFD_READ, fd);
+    int uverif_ret = upipe_verif_eventfd(UVERIF_EVENTFD_READ, fd, 0);
+    if (uverif_ret >= 0)
+        return uverif_ret;
+#endif
 #ifdef UPIPE_HAVE_EVENTFD
     if (likely(fd->mode == UEVENTFD_MODE_EVENTFD)) {
         for ( ; ; ) {
@@ -167,6 +174,12 @@ static inline bool ueventfd_read(struct ueventfd *fd)
  */
 static inline bool ueventfd_write(struct ueventfd *fd)
 {
+#ifdef UPIPE_VERIF
+    UVERIF_YIELD(UVERIF_EVENTFD_WRITE, fd);
+    int uverif_ret = upipe_verif_eventfd(UVERIF_EVENTFD_WRITE, fd, 0);
+    if (uverif_ret >= 0)
+        return uverif_ret;
+#endif
 #ifdef UPIPE_HAVE_EVENTFD
     if (likely(fd->mode == UEVENTFD_MODE_EVENTFD)) {
         for ( ; ; ) {
@@ -221,6 +234,11 @@ static inline bool ueventfd_write(struct ueventfd *fd)
 static inline bool ueventfd_init(struct ueventfd *fd, bool readable)
 {
     int ret;
+#ifdef UPIPE_VERIF
+    ret = upipe_verif_eventfd(UVERIF_EVENTFD_INIT, fd, readable);
+    if (ret >= 0)
+        return ret;
+#endif
 
 #ifdef UPIPE_HAVE_EVENTFD
     fd->mode = UEVENTFD_MODE_EVENTFD;
@@ -282,6 +300,10 @@ static inline bool ueventfd_init(struct ueventfd *fd, bool readable)
  */
 static inline void ueventfd_clean(struct ueventfd *fd)
 {
+#ifdef UPIPE_VERIF
+    if (upipe_verif_eventfd(UVERIF_EVENTFD_CLEAN, fd, 0) >= 0)
+        return;
+#endif
 #ifdef UPIPE_HAVE_EVENTFD
     if (likely(fd->mode == UEVENTFD_MODE_EVENTFD)) {
         close(fd->event_fd);
